@@ -348,6 +348,17 @@ func init() {
 			for _, v := range dynamics {
 				cases = append(cases, Case{"doc": Doc{{Deg: "1", Sym: "", Vals: one()}, {Deg: "1", Sym: "", Vals: one(), Vel: "mf"}}, "flags": Flags{Vel: v}, "tracks": 1})
 			}
+			// every supported key announced in one piece, then the first ones again (more distinct signatures than any small table)
+			{
+				d := Doc{}
+				for i := 0; i < 28+6; i++ {
+					d = append(d, Inst{Deg: "1", Sym: "", Vals: one(), Key: supportedKeys[(i*5)%28]})
+					if i%3 == 0 {
+						d = append(d, Inst{Rest: true, Vals: []Frac{{1, 2}}})
+					}
+				}
+				cases = append(cases, Case{"doc": d, "flags": Flags{}, "tracks": 1}, Case{"doc": d, "flags": Flags{Key: "F#"}, "tracks": 3})
+			}
 			// tempi at and beyond what the event can carry (24 bits of microseconds per quarter note)
 			for _, b := range []int{1, 2, 3, 4, 5, 59999999, 60000000, 60000001, 120000000, 1000000000} {
 				cases = append(cases,
